@@ -42,7 +42,7 @@ ASSUMPTIONS = [
     "loop_bounds expressions are explicit rank variables / ~rv: the base set 'All' evaluates to tensors there and constrains nothing",
     "fused loops = loops with more than one iteration above the last (innermost) outermost-holder of a tensor used by several Einsums, per Einsum path; the mapper additionally counts one loop below a lowerable backing node, which is stricter",
     "for occupancy a spatial loop is executed like a temporal loop (one instance of a memory below the fanout sees one tile at a time; a memory above holds the whole tile)",
-    "min_usage: a returned mapping below the minimum is a violation only if a witness (a mapping returned for the same spec with loop_bounds product>= forcing the usage, re-validated by this predicate) reaches it; the FFM docstring allows best-effort otherwise",
+    "min_usage: a returned mapping below a minimum is a violation only if a fully valid witness exists (a mapping returned for the same spec plus a loop_bounds product>= forcing that usage, which this predicate accepts and which reaches EVERY min_usage of the spec); otherwise the documented best-effort rule of FFM applies",
     "Toll components are not generated here (C31 covers them)",
 ]
 
@@ -63,8 +63,8 @@ def temporal_cases(draw):
     if len(d["einsums"]) >= 3 or (len(d["einsums"]) == 2 and len(d["nodes"]) > 3):
         d["bounds"] = {k: min(v, 3) for k, v in d["bounds"].items()}
         _clamp_sizes(d)
-    d["mapper"]["max_fused_loops"] = draw(st.sampled_from(["inf", 1, 0, 2, "inf"]))
-    d["mapper"]["max_fused_loops_per_rank_variable"] = draw(st.sampled_from([1, 1, 2]))
+    d["mapper"]["max_fused_loops"] = draw(st.sampled_from([1, 0, 2, "inf", "inf"]))
+    d["mapper"]["max_fused_loops_per_rank_variable"] = draw(st.sampled_from([1, 2, 1]))
     return {"spec": d, "family": "temporal"}
 
 
@@ -76,7 +76,7 @@ def _clamp_sizes(d):
             n["size"] = min(n["size"], tot * bits + bits / 2)
 
 
-OPS = ["<=", "<=", "==", "product<=", ">=", "<", "product==", "==1"]
+OPS = ["product==", "<", "==", "product<=", ">=", "<=", "==1", "<="]
 
 
 @st.composite
@@ -87,7 +87,9 @@ def loop_bound(draw, rvs, fanout):
         return {"expression": "~" + rv, "operator": "==", "value": 1}
     if op.startswith("product"):
         others = [r for r in rvs if r != rv]
-        expr = "{" + ", ".join(sorted([rv] + ([draw(st.sampled_from(others))] if others else []))) + "}"
+        # "a | b": the documented union; a "{a, b}" literal is NOT evaluated by accelforge (it stays a string that is
+        # matched by substring), so it is not generated
+        expr = " | ".join(sorted([rv] + ([draw(st.sampled_from(others))] if others else [])))
         return {"expression": expr, "operator": op, "value": draw(st.sampled_from([2, fanout, max(2, fanout - 1)]))}
     if op == ">=":
         return {"expression": rv, "operator": op, "value": 2}
@@ -98,20 +100,25 @@ def loop_bound(draw, rvs, fanout):
 
 @st.composite
 def spatial_cases(draw):
-    wl = draw(G.workloads(shapes=("matmul", "matmul", "matvec", "elementwise", "chain2"), bound_pool=[2, 2, 3, 4, 4, 6], max_ops=150))
-    two = len(wl["einsums"]) > 1
+    """variant A: one Einsum on Main + fanout (Container, or declared on the Reg memory) + Reg + MAC, 1-2 dims;
+    variant B: two Einsums (fusable) on Main + GLB + Container fanout + MAC, 1 dim (a Reg level below a fanout with
+    two Einsums costs minutes per mapper run)."""
+    two = draw(st.integers(0, 2)) == 0
     if two:
+        wl = draw(G.workloads(shapes=("chain2", "chain2", "elementwise2"), bound_pool=[1, 2, 2, 3, 3, 4], max_ops=64))
         wl["bounds"] = {k: min(v, 4) for k, v in wl["bounds"].items()}
+    else:
+        wl = draw(G.workloads(shapes=("matmul", "matmul", "matvec", "elementwise"), bound_pool=[2, 2, 3, 4, 4, 6], max_ops=150))
     rvs = sorted(wl["bounds"])
     bits = list(wl["bits"].values())[0]
     sizes = G.tensor_sizes(wl)
     tot, big = sum(sizes.values()), max(sizes.values())
-    main_keep = draw(st.sampled_from(["~Intermediates", "All"])) if two else "All"
+    main_keep = draw(st.sampled_from(["~Intermediates", "~Intermediates", "All"])) if two else "All"
     nodes = [{"type": "Memory", "name": "Main", "size": "inf", "keep": main_keep, "may_keep": "All",
               "read": [draw(st.sampled_from([2, 10])), draw(st.sampled_from(["inf", 2]))],
               "write": [draw(st.sampled_from([2, 10])), draw(st.sampled_from(["inf", 2]))], "leak": 0}]
-    if two or draw(st.integers(0, 2)) == 0:
-        vals = draw(st.sampled_from(["inf", tot, max(2, tot // 2), big + 2]))
+    if two:
+        vals = draw(st.sampled_from([tot, max(2, tot // 2), big + 2, "inf"]))
         nodes.append({"type": "Memory", "name": "GLB", "size": "inf" if vals == "inf" else vals * bits + bits / 2,
                       "keep": "~Main" if main_keep != "All" else "Nothing", "may_keep": "All",
                       "read": [1, draw(st.sampled_from(["inf", 4]))], "write": [1, draw(st.sampled_from(["inf", 4]))], "leak": 0})
@@ -120,30 +127,33 @@ def spatial_cases(draw):
     for name in ["X", "Y"][:ndims]:
         fanout = draw(st.sampled_from([2, 3, 4, 4]))
         dim = {"name": name, "fanout": fanout}
-        nlb = draw(st.sampled_from([0, 1, 1, 1, 2]))
+        nlb = draw(st.sampled_from([1, 1, 0, 1, 2]))
         if nlb:
             dim["loop_bounds"] = [draw(loop_bound(rvs, fanout)) for _ in range(nlb)]
-        mu = draw(st.sampled_from([0, 0, 0.5, 1]))
+        mu = draw(st.sampled_from([0, 0.5, 0, 1]))
         if mu:
             dim["min_usage"] = mu
         dims.append(dim)
-    reg_vals = draw(st.sampled_from([1, 2, 3, 4, "inf"]))
-    reg = {"type": "Memory", "name": "Reg", "size": "inf" if reg_vals == "inf" else reg_vals * bits + bits / 2,
-           "keep": draw(st.sampled_from(["Nothing", "Nothing", "Outputs"])), "may_keep": "All",
-           "read": [draw(st.sampled_from([0.5, 1])), draw(st.sampled_from(["inf", 4]))],
-           "write": [draw(st.sampled_from([0.5, 1])), draw(st.sampled_from(["inf", 4]))], "leak": 0}
-    if draw(st.integers(0, 3)) == 0:
-        reg["spatial"] = dims                 # fanout declared on the memory itself
-        nodes.append(reg)
-    else:
+    if two:
         nodes.append({"type": "Container", "name": "PEs", "spatial": dims})
-        nodes.append(reg)
+    else:
+        reg_vals = draw(st.sampled_from([1, 2, 3, 4, "inf"]))
+        reg = {"type": "Memory", "name": "Reg", "size": "inf" if reg_vals == "inf" else reg_vals * bits + bits / 2,
+               "keep": draw(st.sampled_from(["Nothing", "Nothing", "Outputs"])), "may_keep": "All",
+               "read": [draw(st.sampled_from([0.5, 1])), draw(st.sampled_from(["inf", 4]))],
+               "write": [draw(st.sampled_from([0.5, 1])), draw(st.sampled_from(["inf", 4]))], "leak": 0}
+        if draw(st.integers(0, 3)) == 0:
+            reg["spatial"] = dims                 # fanout declared on the memory itself
+            nodes.append(reg)
+        else:
+            nodes.append({"type": "Container", "name": "PEs", "spatial": dims})
+            nodes.append(reg)
     nodes.append({"type": "Compute", "name": "MAC", "compute": [1, 1], "leak": 0})
     d = dict(wl)
     d["nodes"] = nodes
     d["mapper"] = {"metrics": draw(st.sampled_from(["ENERGY|LATENCY", "ENERGY", "LATENCY", "ENERGY|LATENCY|RESOURCE_USAGE"]))}
     if two:
-        d["mapper"]["max_fused_loops"] = draw(st.sampled_from(["inf", 1, 2]))
+        d["mapper"]["max_fused_loops"] = draw(st.sampled_from([1, 2, "inf"]))
     return {"spec": d, "family": "spatial"}
 
 
@@ -283,8 +293,8 @@ def validate(sp, tree, stats):
                 raise Bad("keep:not-allowed", f"Einsum {e}: {node['name']} stores {sorted(extra)} outside keep|may_keep ({node.get('keep')} | {node.get('may_keep')})")
             if keep:
                 stats["keep:present"] = 1
-                if keep & set(f["tensors"]) and may - keep:
-                    stats["tight:keep"] = 1       # a non-empty required set where the mapper also had optional choices
+                if node["name"] != "Main" and node.get("keep") != "~Main" and may - keep:
+                    stats["tight:keep"] = 1       # a required set beyond the Main/~Main idiom where bypassing was an option
             env[node["name"]] = ("T", frozenset(held))
         # ---- spatial fanout, loop bounds, min usage --------------------------------------
         for node in arch:
@@ -425,47 +435,31 @@ def first_objective(m, metrics):
 
 
 def witness_reaches_min_usage(sp, item):
-    """is there a valid mapping (by this predicate) whose usage on the dim reaches min_usage?  Forces it with product>=."""
+    """Is there a FULLY valid mapping (this predicate, every min_usage of the spec reached)?  Searched by re-running the
+    mapper with loop_bounds product>= forcing the usage on the dimension that a returned mapping under-uses.  If some
+    other min_usage is unreachable no mapping is strictly valid and the documented best-effort rule applies, so only a
+    fully valid witness makes the under-use a violation."""
     d = copy.deepcopy(sp)
     need = math.ceil(item["min_usage"] * item["fanout"] - 1e-9)
     for n in d["nodes"]:
         if n["name"] == item["component"]:
             for dim in n["spatial"]:
                 if dim["name"] == item["dim"]:
-                    dim.setdefault("loop_bounds", []).append({"expression": "{" + ", ".join(item["rvs"]) + "}", "operator": "product>=", "value": need})
-                    dim.pop("min_usage", None)
+                    dim.setdefault("loop_bounds", []).append({"expression": " | ".join(item["rvs"]), "operator": "product>=", "value": need})
     try:
-        m = G.run_mapper(G.build_spec(d))
+        m = G.run_mapper2(G.build_spec(d))
     except Exception:  # noqa: BLE001  (no witness)
         return None
     for i in range(len(m.data)):
         t = CN.tree(m.mapping(i))
         st_ = {}
         try:
-            validate(sp_without_min_usage(sp, item), t, st_)
+            validate(sp, t, st_)
         except Bad:
             continue
-        for p in CN.paths(t):
-            if p[-1].get("einsum") != item["einsum"]:
-                continue
-            cur = dict(sp["bounds"])
-            used = 1
-            for n in p:
-                if n["k"] == "loop":
-                    if n.get("spatial") == [item["component"], item["dim"]]:
-                        used *= cur[n["rv"]] // n["tile"]
-                    cur[n["rv"]] = n["tile"]
-            if used / item["fanout"] >= item["min_usage"] - 1e-9:
-                return CN.show(t)
+        if not st_.get("min_usage_below"):
+            return CN.show(t)
     return None
-
-
-def sp_without_min_usage(sp, item):
-    d = copy.deepcopy(sp)
-    for n in d["nodes"]:
-        for dim in n.get("spatial") or []:
-            dim.pop("min_usage", None)
-    return d
 
 
 # ---------------------------------------------------------------------------
@@ -487,7 +481,7 @@ def check(desc, col):
         base.append(f"max_fused_loops:{mp.get('max_fused_loops', 'inf')}")
         base.append(f"per_rank_limit:{mp.get('max_fused_loops_per_rank_variable', 1)}")
     try:
-        m = G.run_mapper(G.build_spec(sp))
+        m = G.run_mapper2(G.build_spec(sp))
     except G.Infeasible:
         col.case(desc, False, base + ["mapper:infeasible"])
         return
@@ -519,10 +513,13 @@ def check(desc, col):
     # ---- binding by relaxation (hash-selected third of the cases) --------------------------
     binding = []
     if present and bad is None and int(fp(desc), 16) % 3 == 0:
-        cls = present[(int(fp(desc), 16) // 3) % len(present)]
+        pool = [c for c in present if c != "capacity"] or present      # capacity is present almost everywhere
+        if "capacity" in present and (int(fp(desc), 16) // 3) % 4 == 0:
+            pool = ["capacity"]
+        cls = pool[(int(fp(desc), 16) // 12) % len(pool)]
         labels.append(f"relaxed_run:{cls}")
         try:
-            m2 = G.run_mapper(G.build_spec(relax(sp, cls)))
+            m2 = G.run_mapper2(G.build_spec(relax(sp, cls)))
             a, b = first_objective(m, metrics), first_objective(m2, metrics)
             if a is not None and b is not None:
                 if b < a and not close(a, b, rel=1e-6):
